@@ -170,7 +170,8 @@ class FinishedPdu(AbstractFileDirectiveBase):
 
     def _calculate_directive_field_len(self):
         base_len = 1
-        if self.fault_location is None:
+        # The fault location is only packed for condition codes which can have one.
+        if self.fault_location is None or not self.might_have_fault_location:
             fault_loc_len = 0
         else:
             fault_loc_len = self.fault_location_len
